@@ -201,6 +201,46 @@ def run(f, fixture, rep, cfg, tier):
                     rep.check(t == archive, "R3", "%s|target" % c.decl.rsplit("::", 1)[-1], "%s writes into the hashing writer" % c.decl,
                               "%s writes into %s, bypassing the hashing writer" % (c.decl, t[:160]), c.loc())
 
+    # the compressor hands on exactly what the hashing writer gave it: the "uncompressed archive" that was hashed is the input of
+    # the codec (write forwards `content` as given) and, for the None codec, the payload itself (finish returns the buffer untouched)
+    cw = [x for x in f.body_list if x.name == "write" and x.impl_trait == "std::io::Write" and (x.impl_self or "").endswith("compressor::Compressor")]
+    if rep.anchor(len(cw) == 1, "R3", "Write::write for Compressor"):
+        tcw = TermBuilder(cw[0])
+        fw = [c for c in cw[0].calls() if c.decl.endswith("Write::write") or c.decl.endswith("Write::write_all") or c.decl.endswith("extend_from_slice")]
+        rep.floor("R3", "forwarding writes in Compressor::write", len(fw), 1)
+        for c in fw:
+            a0, a1 = render(tcw.term(c.args[0])), render(tcw.term(c.args[1]))
+            rep.check(re.fullmatch(r"self<\w+>\.0|phi\(self<\w+>\.0( \| self<\w+>\.0)*\)", a0) is not None and a1 == (cw[0].local_name(2) or "_2"), "R3", "compressor|write|%s" % a0, "Compressor::write forwards its input unchanged (%s)" % a0,
+                      "Compressor::write gives %s to %s instead of the bytes it was handed: the archive that was hashed is not the archive that is compressed" % (a1[:120], a0), c.loc())
+        other = [c.decl for c in cw[0].calls() if c not in fw and not c.decl.startswith("std::ops::") and not re.search(r"(Deref|DerefMut|AsRef|AsMut)::", c.decl)]
+        rep.check(not other, "R3", "compressor|write|only-forwards", "Compressor::write does nothing but forward", "Compressor::write also calls %s" % sorted(set(other)), cw[0].span)
+    fcb = f.one("Compressor::finish_compression")
+    tfc = TermBuilder(fcb)
+    # the None buffer reaches the return value as itself: under phi / Ok{..} / map_err only, never as an argument of anything else
+    def none_paths(t, anc, out):
+        if isinstance(t, tuple) and t:
+            if render(t) == "self<None>.0":
+                out.append(list(anc))
+                return
+            here = anc
+            if t[0] == "call":
+                here = anc + [t[1]]
+            elif t[0] == "agg":
+                here = anc + ["agg:%s" % t[1]]
+            for y in t[1:]:
+                none_paths(y, here, out)
+        elif isinstance(t, (list, tuple)):
+            for y in t:
+                none_paths(y, anc, out)
+    paths = []
+    none_paths(tfc.term({"c": {"l": 0, "p": []}}), [], paths)
+    bad_anc = sorted({a for pth in paths for a in pth if not re.search(r"(^agg:std::result::Result::Ok$|Result::<T, E>::map_err$|^agg:.*Result$)", a)})
+    rep.check(bool(paths) and not bad_anc, "R3", "compressor|finish|None", "an uncompressed payload is returned as accumulated",
+              "finish_compression %s" % ("passes the None buffer through %s" % bad_anc if paths else "does not return the None buffer"), fcb.span)
+    edits = sorted({w.decl for l in range(len(fcb.locals)) if re.fullmatch(r"std::vec::Vec<u8>", fcb.local_ty(l)) for (w, _i) in fcb.mut_borrow_calls(l)})
+    rep.check(not edits, "R3", "compressor|finish|unedited", "finish_compression does not touch the bytes after the codec finished",
+              "finish_compression edits the payload bytes (%s) after they were hashed as the uncompressed archive: the alternate payload digest no longer matches" % edits, fcb.span)
+
     # ---- R2: build -----------------------------------------------------------------------------
     bd = f.one("PackageBuilder::build")
     tbb = TermBuilder(bd)
@@ -277,3 +317,9 @@ def run(f, fixture, rep, cfg, tier):
         z_t = render(ta.term(fields["size"]))
         rep.check(z_t == "u64(std::vec::Vec::<T, A>::len(%s))" % c_t, "R2", "add_data|size", "size = content.len()",
                   "size is %s" % z_t[:120], ad.span)
+
+    # ---- R4 "after every signing or signature-clearing operation": a failed operation leaves the recorded digests in place -------
+    # (C10.R2: the mutators build the new signature header aside and replace the old one only once nothing can fail any more)
+    if cfg != "no-default":
+        rep.rule("R4", "sign / clear keep the recorded header digest when they fail (C10.R2)")
+        rep.include("c10", f, fixture, cfg, tier, "R4", "signature header replaced only after the fallible steps", only_rules={"R2"}, floor=4)
